@@ -52,12 +52,17 @@ def doStep (d : DSt) (stepToks : List String) : DSt :=
     let h := parseHOut ((kvOf rest "h").getD "ok")
     let closeAfter := rest.contains "close"
     let seq := rest.contains "seq"
-    -- descriptors ride on the first segment
-    let newCells := (segs.zipIdx.map fun (b, i) => segCells b (if i == 0 then fds else [])).flatten
+    -- descriptors ride on the first segment; `bf<n>`: n more on the last one (when there are several)
+    let nb := if segs.length > 1 then
+      ((rest.find? (·.startsWith "bf")).bind fun t => (t.drop 2).toString.toNat?).getD 0 else 0
+    let bfds := (List.range nb).map (· + d.nextId + n)
+    let last := segs.length - 1
+    let newCells := (segs.zipIdx.map fun (b, i) =>
+      segCells b (if i == 0 then fds else if i == last then bfds else [])).flatten
     let cells := d.cells ++ newCells
     let isClosed := d.closed || closeAfter
     let r := step (kernelChooser seq) isClosed d.bst () cells h
-    { bst := r.o.st, cells := r.rest, closed := isClosed, nextId := d.nextId + n,
+    { bst := r.o.st, cells := r.rest, closed := isClosed, nextId := d.nextId + n + nb,
       dead := r.o.res == .blocked, obs := d.obs ++ [fmtOut r.o] }
   | _ => { d with obs := d.obs ++ ["bad-step"] }
 
